@@ -370,6 +370,12 @@ func tableRec(r *core.Run) {
 		{"labels", "(defun build (n0 acc0) (labels ([lp (n acc) (if (= n 0) acc (lp (- n 1) (cons CAP acc)))]) (lp n0 acc0)))"},
 		{"funcall-tail", "(defun build (n acc) (if (= n 0) acc (funcall build (- n 1) (cons CAP acc))))"},
 		{"apply-tail", "(defun build (n acc) (if (= n 0) acc (apply build (list (- n 1) (cons CAP acc)))))"},
+		// dotimes: ONE binding of the loop symbol for all turns; after the last turn it holds the number of turns, with
+		// and without a result expression (an omitted result is the result ()).  n counts 0..k-1 here.
+		{"dotimes", "(defun build (k acc) (dotimes (n k) (set! acc (cons CAP acc))) acc)"},
+		{"dotimes-result", "(defun build (k acc) (dotimes (n k acc) (set! acc (cons CAP acc))))"},
+		{"dotimes-nil-result", "(defun build (k acc) (dotimes (n k ()) (set! acc (cons CAP acc))) acc)"},
+		{"dotimes-set-last", "(defun build (k acc) (dotimes (n k) (set! acc (cons CAP acc)) (set! n (+ n 0))) acc)"},
 	}
 	uses := []string{
 		"(map 'list (lambda (f) (funcall f)) L)",
